@@ -362,6 +362,29 @@ class T(Entity):
             reg.signed <<= i
             regs.unsigned <<= i
 ''',
+    "arch-name-attribute": HDR + "".join(f'''
+class Leaf{k}(Entity, attributes={{"arch_name": "{an}"}}):
+    a = Port.input(Bit)
+    y = Port.output(Bit)
+    def architecture(self):
+        @std.concurrent
+        def logic():
+            self.y <<= ~self.a
+''' for k, an in enumerate(["rtl", "signal", "a", "work", "y", "Leaf0", "RTL"])) + '''
+class T(Entity):
+    a = Port.input(Bit)
+    y0 = Port.output(Bit)
+    y1 = Port.output(Bit)
+    y2 = Port.output(Bit)
+    y3 = Port.output(Bit)
+    y4 = Port.output(Bit)
+    y5 = Port.output(Bit)
+    y6 = Port.output(Bit)
+    def architecture(self):
+        outs = [self.y0, self.y1, self.y2, self.y3, self.y4, self.y5, self.y6]
+        for k, L in enumerate([Leaf0, Leaf1, Leaf2, Leaf3, Leaf4, Leaf5, Leaf6]):
+            L(a=self.a, y=outs[k])
+''',
     "extern-entity-other-library": HDR + '''
 class Ext(Entity, extern=True, attributes={"path": "mylib"}):
     a = Port.input(Bit)
